@@ -379,6 +379,17 @@ def pattern_edits(qs, loc, g, out):
         else:
             n.controller, n.effect, n.val_xx, n.val_yy = ctl >> 8, ctl & 0xFF, val >> 8, val & 0xFF
     out.append(Edit(f"{base}/cells", set_cell, cells, cls="pattern-cell"))
+    # whole-pattern edits through the public methods
+    if any(qs["cells"]):
+        out.append(Edit(f"{base}/cells", (lambda root: nav(root, loc).clear()), bytes(len(qs["cells"])), cls="pattern-clear"))
+    fill = g.cell()
+    def bulk(root, c=fill):
+        import struct
+        from rv.note import NOTECMD, Note
+        note, vel, module, ctl, val = struct.unpack("<BBHHH", c)
+        nav(root, loc).set_via_fn(lambda p, l, t: Note(note=NOTECMD(note), vel=vel, module=module, ctl=ctl, val=val))
+    if fill * (len(qs["cells"]) // 8) != qs["cells"]:
+        out.append(Edit(f"{base}/cells", bulk, fill * (len(qs["cells"]) // 8), cls="pattern-bulk"))
 
 
 def project_edits(ps, loc, g, out, limit=None):
@@ -459,6 +470,20 @@ def run_file(res, origin, raw, desc, rng, per_file):
         except Exception as ex:
             res.violation(f"C06:edit-raises:{snapshot.field_key(e.path)}:{type(ex).__name__}", f"{origin}: editing {e.path} to {e.value!r} raised {ex!r}", case)
             continue
+        # Half of the cases save FIRST and look at the object afterwards: reading the object before the save
+        # (as a snapshot does) can refresh lazily cached state and hide a replay of stale bytes.
+        save_first = rng.random() < 0.5
+        raw_first = None
+        if save_first:
+            monitors.PURITY_ENABLED = False
+            try:
+                raw_first = o.read()
+            except Exception as ex:
+                res.violation(f"C06:save-load-raises:{snapshot.field_key(e.path)}:{workload.exc_key(ex)}", f"{origin}: after editing {e.path} saving raised {ex!r}", case)
+                continue
+            finally:
+                monitors.PURITY_ENABLED = True
+            res.count("save_first_cases")
         S1 = _snap(o)
         try:
             got = sget(S1, e.path)
@@ -479,7 +504,7 @@ def run_file(res, origin, raw, desc, rng, per_file):
                               f"{origin}: setting {e.path} also changed {others[:2]}", case)
                 continue
         try:
-            raw2 = o.read()
+            raw2 = raw_first if raw_first is not None else o.read()
             o2 = workload.load(raw2)
         except Exception as ex:
             res.violation(f"C06:save-load-raises:{snapshot.field_key(e.path)}:{workload.exc_key(ex)}", f"{origin}: after editing {e.path} save/load raised {ex!r}", case)
